@@ -105,9 +105,12 @@ def pw_arrays(draw, kind, q, k0, n, max_pieces, pool=None, near_x=None):
 def _case(draw, tier):
     q = draw(st.sampled_from([1, 2, 8]))
     k0 = draw(st.integers(-8 * q, 8 * q))
-    n = draw(st.integers(1, 24 if tier == "quick" else 60))
+    n = draw(st.integers(1, 40 if tier == "quick" else 60))
     kind = draw(st.sampled_from(["pwc", "pwl"]))
-    f = draw(pw_arrays(kind, q, k0, n, 8 if tier == "quick" else 20))
+    if draw(st.integers(0, 11)) == 0:
+        k0 += (1 << 20) * q          # a support far away from zero
+    f = draw(pw_arrays(kind, q, k0, n,
+                       draw(st.sampled_from([8, 8, 8, 20])) if tier == "quick" else 20))
     bps = [round((v * q - k0)) for v in f["x"]]
     x0, xN = f["x"][0], f["x"][-1]
     cands = sorted(set(f["x"] + [(a + b) / 2.0 for a, b in zip(f["x"], f["x"][1:])]))
